@@ -13,7 +13,8 @@ from sx import Sym
 
 RULE = ("pairs (a, b) of valid blocks of one type with b in {a itself, a second object built from the same content, "
         "decode(encode(a)), a with exactly one change (a header scalar, the format/flag, a label, a channel number, one sample "
-        "moved far beyond float tolerance, a gap turned into a sample or back, a link), one item appended, one item removed}, for "
+        "moved far beyond float tolerance, a gap turned into a sample or back, a link), one item appended, one item removed, the "
+        "same items in another order (with their channels, without them, or the channels alone)}, for "
         "all nine types incl. gaps and both camera formats; and pairs of files built from such blocks; real a == b (and b == a) "
         "vs the model's eq vs equality of the abstract contents; non-trivial = pair whose blocks have >=1 item; distinct by pair")
 ASSUMPTIONS = ["changed samples differ far beyond numpy's allclose tolerance; ±0 and NaN scalars are not used to build unequal pairs"]
@@ -47,7 +48,24 @@ def mutate(kind, v, rng):
         choices.append("channel")
     if kind == "data3d" and v[0] == 1:
         choices.append("links")
+    if len(items) >= 2:
+        choices.append("reorder")
     what = rng.choice(choices)
+    if what == "reorder":
+        # the same items in another order: jointly with their channels, items only, or channels only
+        cm = {"emg": 3, "platdata": 3, "platcalib": 0, "calib": 5}.get(kind)
+        i, j = sorted(rng.sample(range(len(items)), 2))
+        how = rng.choice(["jointly", "items", "channels"]) if cm is not None else "items"
+        if rng.random() < 0.3:
+            perm = list(range(1, len(items))) + [0]                # rotation instead of a transposition
+        else:
+            perm = list(range(len(items)))
+            perm[i], perm[j] = perm[j], perm[i]
+        if how in ("jointly", "items"):
+            v[ip] = [items[k] for k in perm]
+        if how in ("jointly", "channels"):
+            v[cm] = [v[cm][k] for k in perm]
+        return v, f"order ({how})"
     if what == "scalar":
         if kind == "data3d":
             k = rng.choice([2, 3, 4, 5, 6, 7])
